@@ -63,6 +63,16 @@ def k_cases(tier):
         for nthread in (1, 4):
             for shape in ((6, 6, 6), (13, 3, 3), (4, 4, 1)):
                 out.append(dict(k='tscpar', n=n, nthread=nthread, shape=shape))
+    # _tsc_parallel directly with every small stripe count (odd counts are reachable through tsc_parallel(nthread=1, npartition=odd))
+    for npart in (1, 2, 3, 4, 5, 6, 7):
+        for n in (0, 1, 5):
+            out.append(dict(k='tscstripes', np=npart, n=n))
+    for npart in (2, 3, 5):
+        out.append(dict(k='tscpar', n=3, nthread=1, shape=(9, 3, 3), npartition=npart))
+    # NFW helper: fewer points than threads, no points at all
+    for npts in (0, 1, 3, 16, 20):
+        for nthread in (1, 4, 16):
+            out.append(dict(k='sphere', npts=npts, nthread=nthread))
     for n in (0, 1, 2):
         for nthread in (1, 2, 5):
             for npart in (1, 2, 4):
@@ -288,8 +298,27 @@ def run(case):
         f, _ = fn(tsc.tsc_parallel, mode) if mode == 'twin' else (tsc.tsc_parallel, None)
         with warnings.catch_warnings():
             warnings.simplefilter('ignore')
-            probs = guarded(lambda: f(pos.copy(), dens, box, nthread=case['nthread'], wrap=True), sig + (':thin-grid' if shape[2] == 1 else ''), what)
+            probs = guarded(lambda: f(pos.copy(), dens, box, nthread=case['nthread'], wrap=True, npartition=case.get('npartition')), sig + (':thin-grid' if shape[2] == 1 else ''), what)
         nt_flag = True
+    elif k == 'tscstripes':
+        from abacusnbody.analysis import tsc
+        f, _ = fn(tsc._tsc_parallel, mode)
+        npart, n = case['np'], case['n']
+        box = 8.0
+        pos = np.stack([(np.arange(n) * 1.7) % box, np.full(n, 3.0), np.full(n, 5.0)], axis=1).astype(np.float32).reshape(n, 3)
+        pos = pos[np.argsort(pos[:, 0], kind='stable')]
+        keys = np.minimum((pos[:, 0] * (npart / box)).astype(np.int64), npart - 1)
+        starts = np.searchsorted(keys, np.arange(npart + 1)).astype(np.int64)
+        dens = np.zeros((24, 3, 3), dtype=np.float32)
+        probs = guarded(lambda: f(pos, starts, dens, box, None, 0.0), sig + (':odd' if npart % 2 else ''), what)
+        nt_flag = True
+    elif k == 'sphere':
+        from abacusnbody.hod import GRAND_HOD as G
+        if mode == 'bchk':
+            probs = guarded(lambda: G.getPointsOnSphere(case['npts'], case['nthread']), sig, what)
+        else:
+            probs = []      # the kernel iterates range() over floats, which only numba accepts: compiled modes only
+        nt_flag = case['npts'] < case['nthread']
     elif k == 'partition':
         from abacusnbody.analysis import tsc
         f, _ = fn(tsc.partition_parallel, mode)
